@@ -142,6 +142,30 @@ m('enc-literal-context', 'C01', 'CODEC-MIRROR', 'src/enc/encoder.rs', '        i
 M = [x for x in M if x['old'] is not None]
 
 
+def _seed_mutants():
+    """Confirmed seeded changes (written by independent sub-agents, see seeded/*/meta.json) double as mutants:
+    each (seed, property, rule) recorded by tools/seed_matrix.py must keep being reported."""
+    sd = os.path.join(HERE, 'seeded')
+    if not os.path.isdir(sd):
+        return
+    for sid in sorted(os.listdir(sd)):
+        mp = os.path.join(sd, sid, 'meta.json')
+        if not os.path.exists(mp):
+            continue
+        seen = set()
+        for rep in json.load(open(mp)).get('static_check', {}).get('reports', []):
+            if rep['key'] in ('FLOOR', 'RULE-ERROR') or rep['key'].startswith('ANCHOR-MISSING'):
+                continue
+            if (rep['property'], rep['rule']) in seen:
+                continue
+            seen.add((rep['property'], rep['rule']))
+            M.append(dict(id='seed-%s' % sid, prop=rep['property'], rule=rep['rule'], file=None, old='', new='',
+                          patch=os.path.join(sd, sid, 'patch.diff'), expect=rep['key'], config='def'))
+
+
+_seed_mutants()
+
+
 def _copy_repo(dst):
     for name in ('src', 'Cargo.toml', 'Cargo.lock', 'benches'):
         s = os.path.join(REPO, name)
@@ -157,11 +181,16 @@ def run_mutant(mu):
     tmp = tempfile.mkdtemp(prefix='lzlint-mut-')
     try:
         _copy_repo(tmp)
-        p = os.path.join(tmp, mu['file'])
-        src = open(p).read()
-        if mu['old'] not in src:
-            return (mu, 'inapplicable', 'the code fragment this mutant edits is no longer present')
-        open(p, 'w').write(src.replace(mu['old'], mu['new'], 1))
+        if mu.get('patch'):
+            r = subprocess.run(['git', 'apply', '--include=src/*', mu['patch']], cwd=tmp, capture_output=True, text=True)
+            if r.returncode != 0:
+                return (mu, 'inapplicable', 'the seeded patch no longer applies: ' + r.stderr[-200:])
+        else:
+            p = os.path.join(tmp, mu['file'])
+            src = open(p).read()
+            if mu['old'] not in src:
+                return (mu, 'inapplicable', 'the code fragment this mutant edits is no longer present')
+            open(p, 'w').write(src.replace(mu['old'], mu['new'], 1))
         cache = tempfile.mkdtemp(prefix='lzlint-mutcache-')
         try:
             env = dict(os.environ, VERIF_REPO=tmp, VERIF_CACHE=cache)
